@@ -141,8 +141,10 @@ class World:
             if re.search(r"std::path::(Path|PathBuf)\b", t):
                 out.append(i)
             elif re.fullmatch(r"[A-Z]\w*", t):
-                # generic parameter: path-like if it is used through AsRef<Path>
-                if self._generic_is_path(lf, i):
+                # generic parameter: path-like if bounded by AsRef<Path> (or used through it)
+                bounds = o.j.get("bounds", [])
+                if any(re.match(r"^%s: std::convert::AsRef<std::path::Path>" % re.escape(t), b) for b in bounds) \
+                        or self._generic_is_path(lf, i):
                     out.append(i)
         return out
 
